@@ -160,7 +160,7 @@ def run(tier, seed):
         lines = [l for l in open(trace).read().split("\n") if l.strip()]
         runs = core.split_runs(lines)
         tested = []
-        if not rejects:
+        if not rejects and not v.violations:
             sh = [lines[s:e] for (s, e) in runs if json.loads(lines[s]).get("run") == "selftest-honest"][0]
             sr = [lines[s:e] for (s, e) in runs if json.loads(lines[s]).get("run") == "selftest-refused"][0]
             donor = [json.loads(x) for x in sh if '"ev":"c_der"' in x][2]["blob"]
